@@ -18,6 +18,32 @@ impl Tok for char {
         *self
     }
 }
+/// model tokens that stand for multi-code-point grapheme clusters (kind "graph"): a private-use character each
+pub const CLUSTERS: &[(char, &str)] = &[('\u{E000}', "e\u{301}"), ('\u{E001}', "\u{1F1FA}\u{1F1F8}")];
+pub fn expand_clusters(toks: &[char]) -> String {
+    let mut s = String::new();
+    for c in toks {
+        match CLUSTERS.iter().find(|(k, _)| k == c) {
+            Some((_, g)) => s.push_str(g),
+            None => s.push(*c),
+        }
+    }
+    s
+}
+impl Tok for &'static chumsky::text::Grapheme {
+    fn from_ch(c: char) -> Self {
+        let s: String = expand_clusters(&[c]);
+        let leaked: &'static str = Box::leak(s.into_boxed_str());
+        chumsky::text::Graphemes::new(leaked).iter().next().expect("one grapheme")
+    }
+    fn ch(&self) -> char {
+        let s = self.as_str();
+        match CLUSTERS.iter().find(|(_, g)| *g == s) {
+            Some((k, _)) => *k,
+            None => s.chars().next().unwrap_or('\u{0}'),
+        }
+    }
+}
 impl Tok for u8 {
     fn from_ch(c: char) -> u8 {
         c as u32 as u8
